@@ -18,7 +18,7 @@ func init() {
 			"(classify) Serve dispatches messages with a Request part to handlers and only request-less messages with an id to waiters; " +
 			"(async-dispatch) requests are handed to handleRequest by a go statement and the reply channel is buffered, so a handler may call back and a reply may arrive before its caller waits; " +
 			"(ctx-service) handleRequest and Local.Call put their own receiver under the context key that CtxService reads, and pass that context to the handler; " +
-			"(cancel) receive selects on ctx.Done() and returns ctx.Err(); (unique-id) request ids come from an atomic per-client counter; (no-block-under-lock) nothing blocks while Remote.mu is held; (reply-shape) a reply lacking its Response part is refused, not dereferenced.",
+			"(cancel) receive selects on ctx.Done() and returns ctx.Err(); (unique-id) request ids come from an atomic per-client counter; (no-block-under-lock) nothing blocks while Remote.mu is held; (reply-shape) a reply lacking its Response part is refused, not dereferenced; (reply-id) every return of Server.Handle carries the request id and handleRequest writes it (same rule as C15.reply-id).",
 		NotDecided: []string{"not decided: exactly-once handling and delivery orders under concrete schedules; behaviour of PendingLimit eviction under load; fairness"},
 	}
 }
@@ -352,6 +352,10 @@ func runC14(p *an.Prog, r *an.Run, tier string) {
 	}
 	r.Check(len(bad) == 0, "ctx-service", "jsonrpc2", hr.Pos(), "handlers find the connection their request arrived on in the context", "%s", strings.Join(bad, "; "))
 
+	// ---- reply-id (shared with C15): the reply to a request carries that request's id on every path of
+	// Server.Handle, otherwise Serve cannot route it and the caller only returns through its context
+	checkReplyID(p, r)
+
 	// ---- unique-id
 	bad = nil
 	okAtomic := false
@@ -411,7 +415,70 @@ func runC14(p *an.Prog, r *an.Run, tier string) {
 	if !okUse {
 		bad = append(bad, "request ids do not come from NextID")
 	}
-	r.Check(len(bad) == 0, "unique-id", an.FuncName(creq), creq.Pos(), "ids = atomic counter per client", "%s", strings.Join(bad, "; "))
+	// the counter lives as long as the connection: a Client created on the fly must be kept (stored into a field),
+	// otherwise every call restarts at id 1 and replies are routed to the wrong caller
+	for _, fn := range p.Repo {
+		if p.IsTestFunc(fn) {
+			continue
+		}
+		for _, c := range an.Calls(fn, false) {
+			var rcv ssa.Value
+			if c.Common().IsInvoke() {
+				if f := c.Common().Method; f.Name() == "Request" && f.Pkg() != nil && strings.HasSuffix(f.Pkg().Path(), "jsonrpc2") {
+					rcv = c.Common().Value
+				}
+			} else if c.Common().StaticCallee() == creq && len(c.Common().Args) > 0 {
+				rcv = c.Common().Args[0]
+			}
+			if rcv == nil {
+				continue
+			}
+			seen := map[ssa.Value]bool{}
+			var walk func(v ssa.Value)
+			walk = func(v ssa.Value) {
+				if seen[v] {
+					return
+				}
+				seen[v] = true
+				switch x := v.(type) {
+				case *ssa.Phi:
+					for _, e := range x.Edges {
+						walk(e)
+					}
+				case *ssa.MakeInterface:
+					walk(x.X)
+				case *ssa.ChangeInterface:
+					walk(x.X)
+				case *ssa.Alloc:
+					kept := false
+					for _, ref := range *x.Referrers() {
+						if mi, ok := ref.(*ssa.MakeInterface); ok {
+							for _, r2 := range *mi.Referrers() {
+								if st, ok := r2.(*ssa.Store); ok && st.Val == ssa.Value(mi) {
+									if _, ok := st.Addr.(*ssa.FieldAddr); ok {
+										kept = true
+									}
+								}
+							}
+						}
+						if st, ok := ref.(*ssa.Store); ok && st.Val == ssa.Value(x) {
+							if _, ok := st.Addr.(*ssa.FieldAddr); ok {
+								kept = true
+							}
+							if _, ok := st.Addr.(*ssa.Global); ok {
+								kept = true
+							}
+						}
+					}
+					if !kept {
+						bad = append(bad, an.FuncName(fn)+" builds its request with a Client created for this call only ("+p.Pos(x.Pos())+"): its counter restarts at 1 on every call")
+					}
+				}
+			}
+			walk(rcv)
+		}
+	}
+	r.Check(len(bad) == 0, "unique-id", an.FuncName(creq), creq.Pos(), "ids = atomic counter per client", "%s", strings.Join(dedup(bad), "; "))
 
 	// ---- handler-not-gated: between receiving a request and running its handler nothing may wait on another
 	// request's progress (a per-connection semaphore or queue makes nested call-backs deadlock beyond its depth)
